@@ -147,7 +147,7 @@ func lower(t *rt.Thread, c *rt.GoCont) (rt.Cont, error) {
 		return nil, err
 	}
 	t.RequireBytes(len(s))
-	s = strings.ToLower(string(s))
+	s = mapBytes(s, 'A', 'Z', 'a'-'A')
 	return c.PushingNext1(t.Runtime, rt.StringValue(s)), nil
 }
 
@@ -160,8 +160,22 @@ func upper(t *rt.Thread, c *rt.GoCont) (rt.Cont, error) {
 		return nil, err
 	}
 	t.RequireBytes(len(s))
-	s = strings.ToUpper(string(s))
+	s = mapBytes(s, 'a', 'z', 'A'-'a')
 	return c.PushingNext1(t.Runtime, rt.StringValue(s)), nil
+}
+
+// mapBytes adds delta to the bytes of s that are between lo and hi.  Lua
+// strings are byte strings: only ASCII letters change case (as in the "C"
+// locale), and the other bytes, whether or not they are valid UTF-8, are left
+// alone.
+func mapBytes(s string, lo, hi byte, delta int) string {
+	b := []byte(s)
+	for i, c := range b {
+		if lo <= c && c <= hi {
+			b[i] = byte(int(c) + delta)
+		}
+	}
+	return string(b)
 }
 
 func rep(t *rt.Thread, c *rt.GoCont) (rt.Cont, error) {
